@@ -58,7 +58,10 @@ abbrev CloseErr := GoneErr
 /-- when a descriptor that was listed by `listdir` goes away -/
 inductive Stage
   | beforeReadlink (e : CloseErr)      -- readlink of /proc/pid/fd/n fails
-  | beforeFdinfo (e : CloseErr)        -- the link was read, opening/reading fdinfo/n fails
+  | beforeFdinfo (e : CloseErr)        -- the link was read, opening fdinfo/n fails
+  /-- fdinfo/n was opened, then the descriptor went away: the first (`second = false`) or the
+      second read of the open file fails -/
+  | duringFdinfo (second : Bool) (e : CloseErr)
 
 structure Fd where
   n : Nat
@@ -98,8 +101,9 @@ def renderFd (d : Fd) : Entry :=
       | some (.beforeReadlink e) => .err (linkErrOf e)
       | _ => .ok (linkText d.kind)
     info := match d.closesAt with
-      | some (.beforeReadlink e) => .err e
-      | some (.beforeFdinfo e) => .err e
+      | some (.beforeReadlink e) => .openErr e
+      | some (.beforeFdinfo e) => .openErr e
+      | some (.duringFdinfo second e) => .readErr (fdinfoText d) second e
       | none => .ok (fdinfoText d) }
 
 /-- a process seen through /proc while one call runs -/
